@@ -1,23 +1,40 @@
 #!/bin/bash
 # tools/seedtest.sh <dir-with-patch.diff-and-meta.json> [tier] [property ...]
-# Apply a seeded change to /repo, run the check(s) of the property it breaks
-# (or of the listed properties), undo the change.  Prints one line per check:
+# Apply a seeded change to a scratch worktree of /repo's HEAD, run the
+# check(s) of the property it breaks (or of the listed properties) against
+# that tree (VERIF_REPO, see ./check), remove the worktree.  /repo itself is
+# not touched, so several seeds can be tested at once.  One line per check:
 #   CAUGHT <seed> <prop> <tier> <key>   |  MISSED ...  |  RC<n> ... (inconclusive)
+# With SEED_IN_REPO=1 the change is applied to /repo itself instead
+# (git apply / run / git checkout), which is how the registered commands see it.
 set -u
 D=$(cd "$1" && pwd); TIER=${2:-quick}; shift; shift 2>/dev/null
 SEED=$(basename "$D")
 PROPS="$*"
 [ -z "$PROPS" ] && PROPS=$(python3 -c "import json,sys; print(json.load(open('$D/meta.json'))['property'])")
-cd /repo || exit 2
-if [ -n "$(git status --porcelain)" ]; then echo "repo dirty"; exit 2; fi
-if ! git apply --check "$D/patch.diff" 2>/dev/null; then echo "NOAPPLY $SEED"; exit 0; fi
-git apply "$D/patch.diff"
 export GOFLAGS=-mod=mod GOPROXY=off GOSUMDB=off GOTOOLCHAIN=local
-if ! go build ./... >/dev/null 2>&1; then echo "NOBUILD $SEED"; git checkout -- .; git clean -fdq; exit 0; fi
+if [ "${SEED_IN_REPO:-0}" = 1 ]; then
+  WT=/repo
+  cd /repo || exit 2
+  if [ -n "$(git status --porcelain)" ]; then echo "repo dirty"; exit 2; fi
+else
+  WT=/tmp/seedrun/$SEED.$$
+  mkdir -p /tmp/seedrun
+  git -C /repo worktree add -q --detach "$WT" HEAD || exit 2
+  export VERIF_REPO=$WT
+fi
+cleanup() {
+  if [ "$WT" = /repo ]; then git -C /repo checkout -- . ; git -C /repo clean -fdq
+  else git -C /repo worktree remove --force "$WT"; rm -rf "/verif/.alt/$(printf %s "$WT" | sha1sum | cut -c1-12)"; fi
+}
+cd "$WT"
+if ! git apply --check "$D/patch.diff" 2>/dev/null; then echo "NOAPPLY $SEED"; cleanup; exit 0; fi
+git apply "$D/patch.diff"
+if ! go build ./... >/dev/null 2>&1; then echo "NOBUILD $SEED"; cleanup; exit 0; fi
 for P in $PROPS; do
   out=$(cd /verif && ./check $P --tier $TIER 2>&1); rc=$?
   if [ $rc -eq 1 ]; then echo "CAUGHT $SEED $P $TIER :: $(echo "$out" | grep -m1 -A1 '^  key=' | tr '\n' ' ' | cut -c1-220)";
-  elif [ $rc -eq 0 ]; then echo "MISSED $SEED $P $TIER";
+  elif [ $rc -eq 0 ]; then echo "MISSED $SEED $P $TIER :: $(echo "$out" | tail -1 | cut -c1-160)";
   else echo "RC$rc $SEED $P $TIER :: $(echo "$out" | tail -4 | tr '\n' ' ' | cut -c1-300)"; fi
 done
-git checkout -- . ; git clean -fdq
+cleanup
